@@ -301,41 +301,50 @@ def writeDataObjectAt (sha : Bytes → Bytes) (offUnaligned : Int) (di : DI) (t 
 
 def idInUse (rds : List RawDesc) (id : Nat) : Bool := rds.any (fun d => d.used && d.id == id)
 
+/-- the primary-partition check of `writeDataObject`: `error` = a primary partition exists already,
+    `ok (some arch)` = this object becomes the primary partition, `ok none` = not concerned -/
+def primaryCheck (parseHash : Bytes → Option Bytes) (s : Img) (md : MDIn) :
+    Except Err (Option Bytes) :=
+  match md with
+  | .part _ pt arch =>
+    if pt == partPrimSys then
+      match getDescriptors parseHash s [.partType partPrimSys] with
+      | .ok (_ :: _) => .error .primaryPartition
+      | _ => .ok (some arch)
+    else .ok none
+  | _ => .ok none
+
+/-- the handle after `writeDataObject` committed descriptor `d` into slot `i` -/
+def commitObject (s : Img) (i : Nat) (d : RawDesc) (arch : Option Bytes) (dataSize : Int) : Img :=
+  { s with rds := s.rds.set i d,
+           minIDs := minLower s.minIDs d.gid d.id,
+           h := { s.h with arch := arch.getD s.h.arch, dfree := s.h.dfree - 1,
+                           dataSize := dataSize + d.sizePad } }
+
 /-- `writeDataObject(i, di, t)` on the in-memory part of the handle -/
 def writeDataObject (sha : Bytes → Bytes) (parseHash : Bytes → Option Bytes)
     (s : Img) (i : Nat) (di : DI) (t : Int) : List IOCall × Img × Res :=
   if i ≥ s.rds.length then ([], s, .err .insufficientCapacity)
   else if (i : Int) ≥ maxU32 then ([], s, .err .objectIDOverflow)
   else
-    let primCheck : Option Bytes × Bool :=       -- (new arch, rejected)
-      match di.md with
-      | .part _ pt arch =>
-        if pt == partPrimSys then
-          match getDescriptors parseHash s [.partType partPrimSys] with
-          | .ok (_ :: _) => (none, true)
-          | _ => (some arch, false)
-        else (none, false)
-      | _ => (none, false)
-    if primCheck.2 then ([], s, .err .primaryPartition)
-    else
-      let arch := primCheck.1.getD s.h.arch
+    match primaryCheck parseHash s di.md with
+    | .error e => ([], s, .err e)
+    | .ok arch =>
       let dataSize := calculatedDataSize s.h s.rds
-      let staged := { zeroDesc with id := i + 1 }
-      match writeDataObjectAt sha (s.h.dataOff + dataSize) di t staged with
+      match writeDataObjectAt sha (s.h.dataOff + dataSize) di t { zeroDesc with id := i + 1 } with
       | (calls, .error e) => (calls, s, .err e)
-      | (calls, .ok d) =>
-        (calls,
-         { s with rds := s.rds.set i d,
-                  minIDs := minLower s.minIDs d.gid d.id,
-                  h := { s.h with arch := arch, dfree := s.h.dfree - 1,
-                                  dataSize := dataSize + d.sizePad } },
-         .ok)
+      | (calls, .ok d) => (calls, commitObject s i d arch dataSize, .ok)
 
 def writeDescriptorsCalls (s : Img) : List IOCall :=
   [.seekStart s.h.doff, .write (encTable s.rds)]
 
 def writeHeaderCalls (s : Img) : List IOCall :=
   [.seekStart 0, .write (encHdr s.h)]
+
+/-- the tail of every accepted mutator: `writeDescriptors()` then `writeHeader()`.  (In the Go code
+    the header's time/arch fields are assigned between the two calls; the table bytes do not depend
+    on the header, so both are taken from the final state.) -/
+def flushCalls (s : Img) : List IOCall := writeDescriptorsCalls s ++ writeHeaderCalls s
 
 /-! ### time options -/
 inductive TOpt
@@ -438,7 +447,7 @@ def addObjectPlan (sha : Bytes → Bytes) (parseHash : Bytes → Option Bytes)
   match writeDataObject sha parseHash s (findFreeSlot s.rds) di t with
   | (calls, s1, .ok) =>
     let s2 := { s1 with h := { s1.h with mtime := t } }
-    (calls ++ writeDescriptorsCalls s1 ++ writeHeaderCalls s2, s2, .ok)
+    (calls ++ flushCalls s2, s2, .ok)
   | (calls, s1, r) => (calls, s1, r)
 
 /-! ## delete.go -/
@@ -468,27 +477,49 @@ def resizeCalls (stLen : Nat) (n : Int) : List IOCall :=
   [IOCall.seekEnd] ++
     (if n ≤ stLen then [IOCall.truncate n] else [IOCall.write (zeros (n - stLen).toNat)])
 
+/-- the handle after the loop of `DeleteObjects` selected something -/
+def deleteFinish (s : Img) (h1 : Hdr) (rds1 : List RawDesc) (compact : Bool) (t : Int) : Img :=
+  let h2 := { h1 with mtime := t }
+  let h3 := if compact then { h2 with dataSize := calculatedDataSize h2 rds1 } else h2
+  { s with h := h3, rds := rds1, minIDs := populateMinIDs rds1 }
+
+/-- the store's length after the zeroing calls (what `Seek(0, io.SeekEnd)` in `resize` returns) -/
+def lenAfter (st : Store) (calls : List IOCall) : Nat := (st.callsPrefix calls).1.buf.length
+
 def deleteObjectsPlan (parseHash : Bytes → Option Bytes)
     (s : Img) (sel : Sel) (zero compact : Bool) (topt : TOpt) (now : Int) :
     List IOCall × Img × Res :=
-  let t := resolveTime s topt now
   match deleteLoop parseHash sel zero s.rds [] s.h [] false with
   | .error e => ([], s, .err e)
   | .ok (calls, h1, rds1, selected) =>
     if !selected then (calls, s, .err .objectNotFound)
     else
-      let h2 := { h1 with mtime := t }
-      -- zeroing never changes the length of a store that holds every live object
-      let lenAfterZero := match s.st.callsPrefix calls with | (st', _) => st'.buf.length
-      let (h3, cc) :=
-        if compact then
-          let ds := calculatedDataSize h2 rds1
-          ({ h2 with dataSize := ds }, resizeCalls lenAfterZero (h2.dataOff + ds))
-        else (h2, [])
-      let s' : Img := { s with h := h3, rds := rds1, minIDs := populateMinIDs rds1 }
-      (calls ++ cc ++ writeDescriptorsCalls s' ++ writeHeaderCalls s', s', .ok)
+      let s' := deleteFinish s h1 rds1 compact (resolveTime s topt now)
+      let cc := if compact then resizeCalls (lenAfter s.st calls) (s'.h.dataOff + s'.h.dataSize)
+                else []
+      (calls ++ cc ++ flushCalls s', s', .ok)
 
 /-! ## set.go -/
+
+/-- demote the current primary system partition, if any, to a plain system partition -/
+def demotePrimary (parseHash : Bytes → Option Bytes) (rds : List RawDesc) (t : Int) :
+    Except Err (List RawDesc) :=
+  match getDescriptorIdx parseHash rds [.partType partPrimSys] with
+  | .ok j =>
+    let d := rds.getD j zeroDesc
+    .ok (rds.set j { d with extra := pad 384 (encPartition d.partFS partSystem d.partArch),
+                            mtime := t })
+  | .error .objectNotFound => .ok rds
+  | .error e => .error e
+
+/-- the handle after `SetPrimPart` promoted slot `i` (given the table `rds1` after demotion) -/
+def setPrimResult (s : Img) (i : Nat) (rds1 : List RawDesc) (t : Int) : Img :=
+  let descr := s.rds.getD i zeroDesc
+  let descr1 := rds1.getD i zeroDesc
+  { s with rds := rds1.set i
+             { descr1 with extra := pad 384 (encPartition descr.partFS partPrimSys descr.partArch),
+                           mtime := t },
+           h := { s.h with arch := pad 3 descr.partArch, mtime := t } }
 
 def setPrimPartPlan (parseHash : Bytes → Option Bytes)
     (s : Img) (id : Nat) (topt : TOpt) (now : Int) : List IOCall × Img × Res :=
@@ -501,24 +532,9 @@ def setPrimPartPlan (parseHash : Bytes → Option Bytes)
     else if descr.partType == partPrimSys then ([], s, .ok)
     else if descr.partType != partSystem then ([], s, .err .notSystem)
     else
-      let demote : Except Err (List RawDesc) :=
-        match getDescriptorIdx parseHash s.rds [.partType partPrimSys] with
-        | .ok j =>
-          let d := s.rds.getD j zeroDesc
-          .ok (s.rds.set j { d with extra := pad 384 (encPartition d.partFS partSystem d.partArch),
-                                    mtime := t })
-        | .error .objectNotFound => .ok s.rds
-        | .error e => .error e
-      match demote with
+      match demotePrimary parseHash s.rds t with
       | .error e => ([], s, .err e)
-      | .ok rds1 =>
-        let descr1 := rds1.getD i zeroDesc
-        let rds2 := rds1.set i
-          { descr1 with extra := pad 384 (encPartition descr.partFS partPrimSys descr.partArch),
-                        mtime := t }
-        let s1 := { s with rds := rds2 }
-        let s2 := { s1 with h := { s1.h with arch := pad 3 descr.partArch, mtime := t } }
-        (writeDescriptorsCalls s1 ++ writeHeaderCalls s2, s2, .ok)
+      | .ok rds1 => (flushCalls (setPrimResult s i rds1 t), setPrimResult s i rds1 t, .ok)
 
 /-- the common tail of `SetMetadata` / `SetOCIBlobDigest` -/
 def setExtraPlan (sha : Bytes → Bytes) (s : Img) (i : Nat) (md : MDIn) (t : Int) :
@@ -526,9 +542,8 @@ def setExtraPlan (sha : Bytes → Bytes) (s : Img) (i : Nat) (md : MDIn) (t : In
   match setExtra sha [] md (s.rds.getD i zeroDesc) with
   | .error e => ([], s, .err e)
   | .ok d =>
-    let s1 := { s with rds := s.rds.set i { d with mtime := t } }
-    let s2 := { s1 with h := { s1.h with mtime := t } }
-    (writeDescriptorsCalls s1 ++ writeHeaderCalls s2, s2, .ok)
+    let s2 := { s with rds := s.rds.set i { d with mtime := t }, h := { s.h with mtime := t } }
+    (flushCalls s2, s2, .ok)
 
 def setMetadataPlan (sha : Bytes → Bytes) (parseHash : Bytes → Option Bytes)
     (s : Img) (id : Nat) (md : MDIn) (topt : TOpt) (now : Int) : List IOCall × Img × Res :=
